@@ -132,6 +132,19 @@ func VerifyFunc(pkg *Pkg, cs *Contracts, key string) (fx *FnCtx, err error) {
 			panic(r)
 		}
 	}()
+	// local closures (closures.go): "<Func>$<var>" is verified with the read-only captured locals as leading parameters
+	if cl := pkg.Closures[key]; cl != nil {
+		if sg, ok := pkg.Info.TypeOf(cl.Lit).(*types.Signature); ok {
+			litSig = sg
+			fx.setupClosures(cl.Outer, cl.OuterKey)
+			for _, v := range fx.closureRO[key] {
+				capParams = append(capParams, v)
+				capIdents = append(capIdents, fx.defIdent(cl.Outer, v))
+			}
+		}
+	} else if decl != nil {
+		fx.setupClosures(decl, key)
+	}
 	fx.sc.mapName = map[*types.Map]string{}
 	for _, n := range pkg.Types.Scope().Names() {
 		if tn, ok := pkg.Types.Scope().Lookup(n).(*types.TypeName); ok {
